@@ -69,6 +69,7 @@ def main : IO Unit := do
                 lay [("chrom_start", 4), ("chrom_end", 4), ("value", 4)])) "-, -",
     chk2 "automatic zoom levels: number of candidate resolutions (single pass, two pass)" (fun mz _ => toString [Gen.zl_count_single (10 + mz) 10, Gen.zl_count_two (10 + mz) 10, Gen.zl_count_single mz 10, Gen.zl_count_two mz 10]) (fun mz _ => toString [10, 10, min mz 10, min mz 10]) "max_zooms − 10, -",
     chk2 "index search entry: chromosome id searched with, early returns, adaptors on the walk" (fun cid ix => toString (Gen.sc_chrom_id (cid + 7) ix, Gen.sc_early_returns, Gen.sc_walk_adaptors)) (fun cid _ => toString (cid + 7, ([] : List String), ([] : List String))) "stored id − 7, position in name order",
+    chk2 "FileView read length with 4 GiB left in the view" (fun k b => n (Gen.fv_read_len (b + 1) (4294967296 + k) k)) (fun _ b => n (b + 1)) "position, buffer length − 1",
     chk2 "bigWig value length" (fun e st => n (Gen.wig_len e st)) (fun e st => n (e - st)) "end, start",
     chk2 "section cut (bigWig), not the last item" (fun k i => s (Gen.wig_cut false k i)) (fun k i => s (decide (k ≥ min i 65535))) "items, items_per_slot",
     chk2 "section cut (bigBed), not the last item" (fun k i => s (Gen.bed_cut false k i)) (fun k i => s (decide (k ≥ min i 65535))) "items, items_per_slot",
